@@ -27,7 +27,7 @@ from ..models import streams as SM
 
 PROPERTY = "C10"
 LIMITS = [0, 1, 2]
-ALPHABET = "open next local / peer stream (+-END_STREAM); END_STREAM each way; reset each way; reset by the library itself (send-window overflow); late HEADERS on a stream we reset; push + activation; peer SETTINGS MCS in {0,1,2}; update_settings MCS in {0,1,2} + ACK later; cleanup"
+ALPHABET = "open next local / peer stream (+-END_STREAM); END_STREAM each way; reset each way; reset by the library itself (send-window overflow); late HEADERS on a stream we reset; push + activation; client: ENABLE_PUSH=0 + ACK later (streams promised before still open and count); DATA+END_STREAM above the frame limit (refused, closes nothing); peer SETTINGS MCS in {0,1,2}; update_settings MCS in {0,1,2} + ACK later; cleanup"
 BOUNDS = {"quick": "depth 6, <=3 streams per initiator", "thorough": "depth 8 (or time budget, reported), <=4 streams per initiator"}
 sb = H.stateless_block
 BIG = 10 ** 9
@@ -52,12 +52,14 @@ class Spec:
         st.h.rx([wire.settings([], ack=True)])
         st.local_limit = 100      # acknowledged
         st.pending = []
+        st.push_off = False      # our ENABLE_PUSH=0 has been acknowledged
+        st.push0_sent = False
         st.remote_limit = BIG
         st.dead = False
         return [("start", st)]
 
     def fingerprint(self, st):
-        return fingerprint(st.h.conn, st.h.m.key(), st.local_limit, tuple(st.pending), st.remote_limit, st.dead)
+        return fingerprint(st.h.conn, st.h.m.key(), st.local_limit, tuple(st.pending), st.remote_limit, st.dead, st.push_off, st.push0_sent)
 
     def actions(self, st):
         if st.dead:
@@ -69,8 +71,12 @@ class Spec:
         if self.client:
             if n_local < self.max_ids:
                 acts += ["l:open", "l:open:es"]
-            if n_peer < self.max_ids:
+            if n_peer < self.max_ids and not st.push_off:
                 acts += ["rx:push"]
+            if not st.push0_sent and not st.pending:
+                # (never in flight together with a MAX_CONCURRENT_STREAMS change: the library matches ACKs to settings per
+                # key, C11's known finding, and would apply the other change one ACK early)
+                acts.append("l:push0")
         else:
             if n_peer < self.max_ids:
                 acts += ["rx:open", "rx:open:es"]
@@ -81,6 +87,7 @@ class Spec:
                 continue
             if s.state in (SM.OPEN, SM.HC_REMOTE):
                 acts.append("l:end:%d" % sid)
+                acts.append("l:bigend:%d" % sid)
             if s.state in (SM.OPEN, SM.HC_LOCAL):
                 acts.append("rx:end:%d" % sid)
             if s.state == SM.RES_LOCAL:
@@ -99,7 +106,8 @@ class Spec:
                 break
         for v in LIMITS:
             acts.append("rx:mcs:%d" % v)
-            acts.append("l:mcs:%d" % v)
+            if "push0" not in st.pending:
+                acts.append("l:mcs:%d" % v)
         if st.pending:
             acts.append("rxack")
         acts.append("cleanup")
@@ -127,7 +135,24 @@ class Spec:
             o = h.rx([wire.settings([], ack=True)])
             if o.kind != "ok":
                 bad("settings-ack-rejected", o.brief())
-            st.local_limit = v
+            if v == "push0":
+                st.push_off = True        # no further promises; streams promised before still count when they open
+            else:
+                st.local_limit = v
+        elif lab == "l:push0":
+            o = h.api("update_settings", {wire.S_ENABLE_PUSH: 0})
+            if o.kind != "ok":
+                bad("update-settings-refused", o.brief())
+            else:
+                st.pending.append("push0")
+                st.push0_sent = True
+        elif parts[:2] == ["l", "bigend"]:
+            # DATA + END_STREAM larger than the peer's MAX_FRAME_SIZE: refused, and a refused call closes nothing
+            o = h.api("send_data", int(parts[2]), b"x" * 16385, end_stream=True)
+            if o.kind == "ok" or o.raw:
+                bad("oversized-data-not-refused", "%s -> %s" % (lab, o.brief()))
+                st.dead = True
+                return Step("bigend-accepted", viols, prune=True)
         elif parts[:2] == ["l", "mcs"]:
             v = int(parts[2])
             o = h.api("update_settings", {wire.S_MAX_CONCURRENT_STREAMS: v})
